@@ -37,7 +37,8 @@ KINDS = ["forcing_starts_late", "forcing_ends_early", "frames_out_of_order", "fr
          "direction_flag_wrong", "release_all_before", "release_all_at_or_after_stop", "release_without_position",
          "release_file_missing", "config_file_missing", "section_missing", "subgrid_illegal", "bad_period",
          "frames_unsorted_in_file", "frame_time_repeated_in_file"]
-REQUIRED_PROBES = ["applied:" + k for k in KINDS] + ["control_started", "combination", "ends_inside_fraction"]
+REQUIRED_PROBES = ["applied:" + k for k in KINDS] + ["control_started", "combination", "ends_inside_fraction",
+                                                   "short_by_less_than_a_step_start_side", "short_by_less_than_a_step_stop_side"]
 
 PROFILE = gen.profile(
     nsteps=(2, 24), p_reversed=0.35, p_land=0.3, p_subgrid=0.3, rows=(1, 6), p_late_rows=0.6, p_rows_outside=0.3,
@@ -139,6 +140,26 @@ def apply_faults(sc):
             continue
         fr = s2["frames"]
         offs = fr["offsets"]
+        T0 = sc["time"]
+        dt0 = int(T0["dt"])
+        if (k in ("forcing_starts_late", "forcing_ends_early") and f["r"] > 0.55 and dt0 > 1 and "phase_s" not in fr
+                and "forcing_starts_late" not in ap.kinds and "forcing_ends_early" not in ap.kinds):
+            # the forcing falls short by less than one time step: every frame sits a few seconds off the step grid
+            # and the outermost frame on this side is the one that used to lie exactly on the end of the window
+            early_side = k == "forcing_starts_late"                    # calendar-early end of the window
+            start_side = early_side != bool(T0.get("reversed"))         # ... which is the model's start or its stop
+            edge = lo if early_side else hi
+            if edge in offs and (start_side or not T0.get("stop_extra")):
+                keep = [i for i, o in enumerate(offs) if (o >= edge if early_side else o <= edge)]
+                _keep_frames(s2, keep)
+                delta = 1 + int(f["r"] * 1000) % (dt0 - 1)
+                s2["frames"]["phase_s"] = delta if early_side else -delta
+                ft = truth.frame_times(s2)
+                w0, w1 = sorted([truth.t_start(s2), truth.t_stop(s2)])
+                assert (ft[0] > w0) if early_side else (ft[-1] < w1)     # effect proof
+                ap.kinds.append(k)
+                ap.notes.append("short_by_less_than_a_step" + ("_start_side" if start_side else "_stop_side"))
+                continue
         if k == "forcing_starts_late":
             keep = [i for i, o in enumerate(offs) if o > lo]
             if len(keep) >= 1 and len(keep) < len(offs):
